@@ -4,7 +4,7 @@ interface lines."""
 import fcntl
 import hashlib
 import json
-import os
+import os, re
 import subprocess
 import sys
 import time
@@ -233,8 +233,10 @@ def load_known():
         if line.startswith('finding:'):
             body = line[len('finding:'):].strip()
             head, _, text = body.partition(' :: ')
-            parts = dict(kv.split('=', 1) for kv in head.split() if '=' in kv)
-            findings[(parts.get('property'), parts.get('key'))] = text.strip()
+            # a key may contain blanks (`<cell::Cell as core::fmt::Debug>::fmt`): it runs to the end of the head
+            m_ = re.match(r'property=(\S+)\s+key=(.*)$', head.strip())
+            if m_:
+                findings[(m_.group(1), m_.group(2).strip())] = text.strip()
         elif line.startswith('fixed:'):
             fixed.append(line)
     return findings, fixed
